@@ -383,8 +383,13 @@ func genHistory(t *rapid.T, spec world.Spec, sp int, tweak func(*world.SPSpec), 
 	for i := 0; i < n; i++ {
 		h.Warmups = append(h.Warmups, rapid.SampledFrom([]string{"sso", "sso", "attrquery", "logout", "metadata"}).Draw(t, "warmup"))
 	}
-	if allowRemoved && rapid.Bool().Draw(t, "removed") {
+	switch mode := rapid.IntRange(0, 2).Draw(t, "historymode"); {
+	case mode == 0 && allowRemoved:
 		h.Removed = true
+		return h
+	case mode == 1:
+		// the registration never changed: the provider (the same object in the storage) simply used the IdP before
+		h.Warmups = append(h.Warmups, "sso", "sso-refused")
 		return h
 	}
 	e := spec.SPs[sp]
